@@ -328,8 +328,8 @@ func (a *Allocator) frames(s *stack, all bool) []string {
 	for {
 		f, more := fr.Next()
 		if f.Function != "" {
-			if all || strings.HasPrefix(f.Function, a.o.FramePrefix) {
-				out = append(out, fmt.Sprintf("%s (%s:%d)", strings.TrimPrefix(f.Function, a.o.FramePrefix), shortFile(f.File), f.Line))
+			if t, ok := a.under(f.Function); all || ok {
+				out = append(out, fmt.Sprintf("%s (%s:%d)", t, shortFile(f.File), f.Line))
 			}
 		}
 		if !more {
@@ -337,6 +337,18 @@ func (a *Allocator) frames(s *stack, all bool) []string {
 		}
 	}
 	return out
+}
+
+// under says whether fn belongs to the code under test (a sub-package of the
+// prefix, or the package the prefix names itself) and returns its short name.
+func (a *Allocator) under(fn string) (string, bool) {
+	if strings.HasPrefix(fn, a.o.FramePrefix) {
+		return strings.TrimPrefix(fn, a.o.FramePrefix), true
+	}
+	if root := strings.TrimSuffix(a.o.FramePrefix, "/"); root != a.o.FramePrefix && strings.HasPrefix(fn, root+".") {
+		return "nbio" + strings.TrimPrefix(fn, root), true
+	}
+	return fn, false
 }
 
 func shortFile(f string) string {
@@ -363,8 +375,8 @@ func (a *Allocator) site(s *stack) string {
 		fr := runtime.CallersFrames(s[:n])
 		for {
 			f, more := fr.Next()
-			if strings.HasPrefix(f.Function, a.o.FramePrefix) && !strings.HasPrefix(f.Function, a.o.FramePrefix+"mempool.") {
-				out = strings.TrimPrefix(f.Function, a.o.FramePrefix)
+			if t, ok := a.under(f.Function); ok && !strings.HasPrefix(t, "mempool.") {
+				out = t
 				break
 			}
 			if !more {
